@@ -630,6 +630,9 @@ pub struct CliCase {
     pub stage: String,
     pub env_a: Vec<(String, String)>,
     pub env_b: Vec<(String, String)>,
+    /// set: standard output on a pseudo-terminal, at these two widths (env_a for both)
+    #[serde(default)]
+    pub tty: Option<(u16, u16)>,
 }
 
 fn cli_env(rng: &mut Rng) -> Vec<(String, String)> {
@@ -698,6 +701,57 @@ fn cli_run(bin: &str, dir: &str, src: &str, stage: &str, env: &[(String, String)
     Ok((o.status.code(), o.stdout, files))
 }
 
+/// one run of the tool with its standard output on a pseudo-terminal of the given width
+fn cli_run_tty(bin: &str, dir: &str, src: &str, stage: &str, env: &[(String, String)], cols: u16) -> Result<(Option<i32>, Vec<u8>), String> {
+    use std::os::fd::FromRawFd;
+    let _ = std::fs::remove_dir_all(dir);
+    std::fs::create_dir_all(dir).map_err(|e| e.to_string())?;
+    std::fs::write(format!("{dir}/p.sc"), src).map_err(|e| e.to_string())?;
+    let (mut master, mut slave) = (0, 0);
+    let ws = libc::winsize { ws_row: 24, ws_col: cols, ws_xpixel: 0, ws_ypixel: 0 };
+    if unsafe { libc::openpty(&mut master, &mut slave, std::ptr::null_mut(), std::ptr::null(), &ws) } != 0 {
+        return Err("openpty failed".into());
+    }
+    let mut c = Command::new(bin);
+    c.args(["--no-color", stage, "p.sc"]).current_dir(dir).stderr(Stdio::null()).stdin(Stdio::null());
+    c.stdout(unsafe { Stdio::from_raw_fd(slave) });
+    for k in ["TERM", "NO_COLOR", "CLICOLOR_FORCE", "CLICOLOR", "COLUMNS", "LANG", "RUST_BACKTRACE"] {
+        c.env_remove(k);
+    }
+    for (k, v) in env {
+        c.env(k, v);
+    }
+    let mut child = c.spawn().map_err(|e| format!("{bin}: {e}"))?;
+    drop(c); // closes the parent's copy of the slave side
+    let mut out = Vec::new();
+    let mut buf = [0u8; 4096];
+    loop {
+        let n = unsafe { libc::read(master, buf.as_mut_ptr() as *mut libc::c_void, buf.len()) };
+        if n <= 0 {
+            break;
+        }
+        out.extend_from_slice(&buf[..n as usize]);
+    }
+    unsafe {
+        libc::close(master);
+    }
+    let st = child.wait().map_err(|e| e.to_string())?;
+    let _ = std::fs::remove_dir_all(dir);
+    Ok((st.code(), out))
+}
+
+/// the same stage on terminals of two different widths
+fn cli_compare_tty(bin: &str, tag: &str, src: &str, case: &CliCase, cols: (u16, u16)) -> Result<Option<String>, String> {
+    let base = format!("{}/work/kcli-{}-{tag}", verif_dir(), std::process::id());
+    let a = cli_run_tty(bin, &format!("{base}-ta"), src, &case.stage, &case.env_a, cols.0)?;
+    let b = cli_run_tty(bin, &format!("{base}-tb"), src, &case.stage, &case.env_a, cols.1)?;
+    if a != b {
+        let (x, y) = (String::from_utf8_lossy(&a.1).to_string(), String::from_utf8_lossy(&b.1).to_string());
+        return Ok(Some(format!("standard output of `scc --no-color {} p.sc` on a terminal differs between {} and {} columns: {}", case.stage, cols.0, cols.1, first_diff(&x, &y))));
+    }
+    Ok(None)
+}
+
 /// compare two runs of one stage; Some(message) if they differ
 fn cli_compare(bin: &str, tag: &str, src: &str, case: &CliCase) -> Result<Option<String>, String> {
     let base = format!("{}/work/kcli-{}-{tag}", verif_dir(), std::process::id());
@@ -722,7 +776,11 @@ pub fn replay(path: &str) -> Result<(KReplay, Option<(String, String)>), String>
     let rp: KReplay = serde_json::from_str(&s).map_err(|e| format!("{path}: {e}"))?;
     if let Some(case) = &rp.cli {
         let bin = build_scc()?;
-        let r = cli_compare(&bin, "replay", &rp.source, case)?.map(|m| (format!("cli-{}", case.stage), m));
+        let r = match case.tty {
+            Some(cols) => cli_compare_tty(&bin, "replay", &rp.source, case, cols)?,
+            None => cli_compare(&bin, "replay", &rp.source, case)?,
+        }
+        .map(|m| (format!("cli-{}", case.stage), m));
         return Ok((rp, r));
     }
     let r = compare(&rp.source, &rp.a, &rp.b);
@@ -845,9 +903,14 @@ pub fn check(tier: &str) -> i32 {
             for (pi, (name, src)) in progs.iter().filter(|(_, s)| s.len() < 6000).take(n).enumerate() {
                 let mut rng = Rng::keyed(seed, pi as u64, "k-cli");
                 let stage = CLI_STAGES[rng.below(CLI_STAGES.len())].to_string();
-                let case = CliCase { stage, env_a: cli_env(&mut rng), env_b: cli_env(&mut rng) };
+                let tty = if pi % 3 == 2 { Some((*rng.pick(&[40u16, 60, 80]), *rng.pick(&[120u16, 200, 250]))) } else { None };
+                let case = CliCase { stage, env_a: cli_env(&mut rng), env_b: cli_env(&mut rng), tty };
                 cli_runs += 2;
-                match cli_compare(&bin, &format!("{pi}"), src, &case) {
+                let r = match case.tty {
+                    Some(cols) => cli_compare_tty(&bin, &format!("{pi}"), src, &case, cols),
+                    None => cli_compare(&bin, &format!("{pi}"), src, &case),
+                };
+                match r {
                     Err(e) => {
                         println!("HARNESS-ERROR: {e}");
                         return 2;
